@@ -176,7 +176,7 @@ class Harness:
             src, vals, buf = self._source(kind)
             before = self.cn(world.cells)
             try:
-                world.add_cell_component(name, src)
+                (world.addCellComponent if kind == 'callable' and name == 'q' else world.add_cell_component)(name, src)
             except (TypeError, IndexError) as e:
                 if kind in ('lookup_rank', 'lookup_np_rank') and self.rank < 3 and self.cn(world.cells) == before:
                     # as-is behaviour K: the generator is handed a 3-tuple, indexes one level too deep, raises, and
